@@ -35,6 +35,8 @@ package main
 //@ func main [C18]
 //@   nopanic none
 //@   modifies *
+// The pattern handed to the path parser is the -files value as read from the flag, unmodified.
+//@   atcall ParsePath pattern: arg0 == init(search_files_glob)
 //@   atcall GetFileList compiled: defined(compError) && compError == nil
 //@   atcall RunFiles valid: (len(search_files_glob) != 0 || debug) && ((len(source) != 0) != (len(command) != 0)) && !(out_json && out_fjson)
 //@   atcall RunFiles args: arg2 == replaceModeArg && arg3 == process_filenames
